@@ -346,7 +346,89 @@ def run_histories(stack, depth):
     rec(a0, m0, [], depth)
 
 
+# ---------------------------------------------------------------- extra annotations of any dtype
+def _same(x, y):
+    """element-wise identity of two annotation arrays, NaN == NaN"""
+    if x.dtype != y.dtype or x.shape != y.shape:
+        return False
+    if np.issubdtype(x.dtype, np.floating):
+        return bool(np.array_equal(x, y, equal_nan=True))
+    return x.tolist() == y.tolist()
+
+
+def dtype_cases():
+    """the operations of the statement on arrays whose extra annotation has another dtype /
+    special values (NaN = 'not available' in float columns of every width)"""
+    nan = float("nan")
+    pool = [(np.float16, [1.0, nan, 2.5, nan]), (np.float32, [10.0, 11.5, 12.0, nan]), (np.float64, [nan, 0.0, -0.0, 1e300]),
+            (np.float32, [1.0, 2.0, 3.0, 4.0]), (np.int8, [-128, 0, 1, 127]), (np.uint64, [0, 1, 2, 2 ** 64 - 1]),
+            (bool, [True, False, True, True]), ("U5", ["", "a", "abcde", "'"]), (object, [None, (1, 2), "x", 3.5])]
+    for stack in (False, True):
+        for dt, vals in pool:
+            a, _ = build(stack)
+            arr = np.empty(N, dtype=dt)
+            for i, v in enumerate(vals):
+                arr[i] = v
+            a.set_annotation("special", arr)
+            inp = {"container": "stack" if stack else "array", "dtype": str(np.dtype(dt)), "values": repr(vals)}
+            key = ("stack: " if stack else "array: ") + "annotation dtype operations"
+
+            def f(a=a, arr=arr, stack=stack):
+                c = a.copy()
+                if not _same(c.get_annotation("special"), arr):
+                    return "copy() changed the annotation"
+                if not a.equal_annotations(c):
+                    return "equal_annotations(copy) is False"
+                if not (c == a):
+                    return "copy() does not compare equal to its original"
+                if np.issubdtype(arr.dtype, np.floating) and np.isnan(arr).any() and a.equal_annotations(c, equal_nan=False):
+                    return "equal_annotations(copy, equal_nan=False) is True although NaN values are present"
+                sub = a[..., [3, 0]]
+                if not _same(sub.get_annotation("special"), arr[[3, 0]]):
+                    return "index array [3, 0] changed the annotation"
+                cat = a + c
+                if not _same(cat.get_annotation("special"), np.concatenate([arr, arr])):
+                    return f"a + copy: annotation {cat.get_annotation('special')!r}"
+                if not stack:
+                    second = a.copy()
+                    second.coord += 1
+                    st = struc.stack([a, second])
+                    if st.stack_depth() != 2 or not _same(st.get_annotation("special"), arr):
+                        return "stack([a, copy]) changed the annotation"
+                    for k in range(2):
+                        if not _same(st.get_array(k).get_annotation("special"), arr) or not st.get_array(k).equal_annotations(a):
+                            return f"get_array({k}) of stack([a, copy]) has other annotations than a"
+                    third = a.copy()
+                    third.coord -= 5
+                    st[1] = third
+                    if not np.array_equal(st.coord[1], third.coord):
+                        return "stack[1] = array did not set the coordinates"
+                    x = a.copy()
+                    x[0] = a[3]
+                    exp = arr.copy()
+                    exp[0] = arr[3]
+                    if not _same(x.get_annotation("special"), exp):
+                        return "a[0] = a[3] did not copy the annotation value"
+                else:
+                    m0 = a[0]
+                    if not _same(m0.get_annotation("special"), arr):
+                        return "stack[0] changed the annotation"
+                    x = a.copy()
+                    x[1] = m0
+                    if not np.array_equal(x.coord[1], m0.coord):
+                        return "stack[1] = stack[0] did not set the coordinates"
+                    st = struc.stack([a[0], a[1]])
+                    if not (st == a):
+                        return "stack of the models does not compare equal to the stack"
+                c.get_annotation("special")[0] = arr[1]
+                if not _same(a.get_annotation("special"), arr):
+                    return "editing the copy's annotation changed the original"
+                return None
+            R.check("annotation of any dtype survives copy / compare / index / concatenate / stack / assignment", key, inp, f)
+
+
 depth = 3 if R.thorough else 2
 for st in (False, True):
     run_histories(st, depth)
+dtype_cases()
 R.finish()
